@@ -264,6 +264,10 @@ def xsw_variant(xml, level, carrier, id_policy, sig_policy, rng, sig_pos="schema
         evil.set("ID", "evil-" + orig.get("ID"))
     elif id_policy == "removed":
         evil.attrib.pop("ID", None)
+    elif id_policy == "case":
+        evil.set("ID", orig.get("ID").swapcase())
+    elif id_policy == "padded":
+        evil.set("ID", orig.get("ID") + " ")
     if sig_policy == "stripped":
         strip_sigs(evil)
     elif sig_policy == "moved":
@@ -318,6 +322,10 @@ def sibling_variant(xml, level, order, id_policy, sig_policy):
         evil.set("ID", "evil-" + orig.get("ID"))
     elif id_policy == "removed":
         evil.attrib.pop("ID", None)
+    elif id_policy == "case":
+        evil.set("ID", orig.get("ID").swapcase())
+    elif id_policy == "padded":
+        evil.set("ID", orig.get("ID") + " ")
     if sig_policy == "stripped":
         strip_sigs(evil)
     elif sig_policy == "moved":
@@ -399,6 +407,8 @@ def rewrite_variant(xml, what, which, rng):
         ref.set("URI", ref.get("URI") + " ")
     elif what == "uri_hash_only":
         ref.set("URI", "#")
+    elif what == "uri_case":
+        ref.set("URI", ref.get("URI").swapcase())
     elif what == "drop_enveloped":
         ts = ref.find(Q(DS, "Transforms"))
         for t in list(ts):
@@ -442,7 +452,7 @@ def rewrite_variant(xml, what, which, rng):
     return ET.tostring(root, encoding="unicode")
 
 
-REWRITES = ["uri_empty", "uri_missing", "uri_other", "uri_external", "uri_space", "uri_hash_only", "drop_enveloped", "extra_transform",
+REWRITES = ["uri_case", "uri_empty", "uri_missing", "uri_other", "uri_external", "uri_space", "uri_hash_only", "drop_enveloped", "extra_transform",
             "no_transforms", "c14n_method", "digest_method", "signature_method", "extra_reference", "object", "keyinfo_attacker",
             "flip_digest", "flip_sigvalue"]
 
@@ -559,7 +569,7 @@ def gen_cases(rng, tier):
             yield c
         for level in ("Response", "Assertion"):
             for carrier in CARRIERS:
-                for idp in ("same", "fresh", "removed"):
+                for idp in ("same", "fresh", "removed", "case", "padded"):
                     for sp in ("copied", "stripped", "moved", "orig_then_fake"):
                         try:
                             v = xsw_variant(gens[kind], level, carrier, idp, sp, rng)
@@ -569,7 +579,7 @@ def gen_cases(rng, tier):
                         if c:
                             yield c
         for order in ("evil_first", "evil_last"):
-            for idp in ("same", "fresh", "removed"):
+            for idp in ("same", "fresh", "removed", "case", "padded"):
                 for sp in ("copied", "stripped", "moved"):
                     c = emit(kind, sibling_variant(gens[kind], "Assertion", order, idp, sp), "sibling:%s/%s/%s" % (order, idp, sp))
                     if c:
